@@ -196,6 +196,12 @@ func AddStandardFilters(fd FilterDictionary) { //nolint: gocyclo
 		if start < 0 {
 			return ""
 		}
+		if start > len(ss) || n < 0 {
+			return ""
+		}
+		if n > len(ss) {
+			n = len(ss)
+		}
 		end := start + n
 		if end > len(ss) {
 			end = len(ss)
